@@ -19,7 +19,7 @@ def describe(tier):
                 "requirement keys (evaluate_requirement_constraint_tree) and x ALL 3^m*2^n assignments to requirement and format keys "
                 "(evaluate_ahb_expression_tree of 'Muss <e>', of the two-part 'Muss [v] Soll <e>' and of 'Muss <e> Kann [v]' with a fresh "
                 "requirement key v). Oracle: InvalidExpressionError is raised under every assignment iff the structural criterion R4 says "
-                "invalid, and under none otherwise; is_valid_expression('Muss <e>', setter) returns (True, None) resp. (False, non-empty "
+                "invalid, and under none otherwise; is_valid_expression('Muss <e>', setter) - called with the string and with the resolved tree - returns (True, None) resp. (False, non-empty "
                 "reason) accordingly; in the quick tier additionally all ASTs with 4 leaves and distinct keys through the transformer entry "
                 "point and the validity check only (the setter writes a ContextVar read by the harness evaluators; expressions with <= 3 leaves also with the library's "
                 "ContentEvaluationResult-based evaluators and a setter that stores the dumped result for the injected provider), also for the two-part forms. "
@@ -137,6 +137,15 @@ def check_expr(expr, seed, light=False):
             if not ok:
                 out.append({"kind": "is-valid-wrong/" + fname, "case": dict(case, form=fname),
                             "expected": "(True, None)" if valid else "(False, reason)", "observed": repr(res)[:200], "msg": ahb})
+        # (3b) the validity check called with the resolved TREE instead of the string (documented second input form)
+        n += 1
+        r = I.try_call(lambda: I.run(I.is_valid_expression(tree, _setter), I.Env()))
+        res = r[1] if r[0] == "ok" else None
+        ok = r[0] == "ok" and ((res == (True, None)) if valid else (isinstance(res, tuple) and len(res) == 2 and res[0] is False
+                                                                     and isinstance(res[1], str) and res[1] != ""))
+        if not ok:
+            out.append({"kind": "is-valid-wrong/tree-input", "case": dict(case, form=fname), "expected": "(True, None)" if valid else "(False, reason)",
+                        "observed": repr(res)[:200] if r[0] == "ok" else r[1], "msg": ahb + " (tree input)"})
     return out, n
 
 
